@@ -254,6 +254,7 @@ func cmdCheck(args []string) int {
 		cfg.Workers = *workers
 		cfg.Solver = *solver
 		cfg.Thorough = *tier == "thorough"
+		curTier = *tier
 		cfg.MaxDecisions = o.IntOpt("decisions", cfg.MaxDecisions)
 		cfg.MaxPaths = o.IntOpt("paths", cfg.MaxPaths)
 		if *maxPaths > 0 {
@@ -656,8 +657,7 @@ func validateWitnesses(o sx.Obligation, ws []*sx.Witness, genDir, outDir string)
 	}
 	cmd := exec.Command("go", "test", "-overlay", ovJSON, "-ldflags=-checklinkname=0", "-vet=off", "-count=1", "-run", "^TestVerifBatch$", "-timeout", "600s", "./"+o.Pkg)
 	cmd.Dir = repoDir
-	tier := "quick"
-	cmd.Env = append(os.Environ(), "GOFLAGS=-mod=mod", "GOPROXY=off", "GOSUMDB=off", "GOTOOLCHAIN=local", "VERIF_BATCH="+batch, "VERIF_BATCH_OUT="+outPath, "VERIF_TIER="+tier)
+	cmd.Env = append(os.Environ(), "GOFLAGS=-mod=mod", "GOPROXY=off", "GOSUMDB=off", "GOTOOLCHAIN=local", "VERIF_BATCH="+batch, "VERIF_BATCH_OUT="+outPath, "VERIF_TIER="+curTier)
 	out, _ := cmd.CombinedOutput()
 	rb, err := os.ReadFile(outPath)
 	if err != nil {
@@ -739,6 +739,9 @@ func cmdSelftest(args []string) int {
 
 
 var genNotes []string
+
+// curTier: the tier of the running check (passed to every native run so that vThorough() agrees)
+var curTier = "quick"
 
 func genTypes(repoDir, harnessDir, genDir string) error {
 	req, err := sx.DiscoverGen(harnessDir)
